@@ -133,7 +133,7 @@ TERMS = ["pandas", "awkward", "root", "parquet"]
 FAULT_KINDS = [
     "exec_error", "stall_cancel", "cancel", "timeout", "sync_in_loop", "derive_fail",
     "shared_ast", "typed", "unbind", "nontransportable", "touch", "override", "dup_exec",
-    "threads", "capture_fault", "small_stack", "caller_interrupt",
+    "threads", "capture_fault", "small_stack", "caller_interrupt", "caller_edit",
 ]
 
 SAMPLES = [
@@ -141,11 +141,13 @@ SAMPLES = [
         a=i,
         b=2 * i + 1,
         tag="tagA" if i % 2 else "tagB",
-        jets=le.Seq([le.Rec(pt=j * 3 + i, eta=j - 1,
+        jets=le.Seq([le.Rec(pt=j * 3 + i, eta=j - 1, A=j + 7, m=j * 1.5, In=le.Rec(B=j),
                             trk=le.Rec(id=10 * i + j, value=j + 0.5, attr=j % 2))
                      for j in range(i % 4)]),
         # attribute names that also are field names of ast nodes (id, value, attr, slice, ...)
         hit=le.Rec(id=7 * i + 1, value=i + 0.25, attr=i % 3, ctx=i, args=2 * i),
+        # ... and names that the captured class / module of the client program have (K0.A, simcfg.m)
+        A=100 + i, m=0.5 * i, In=le.Rec(B=3 * i),
         hits=le.Seq([le.Rec(value=i + k, slice=k, id=k) for k in range(2)]),
     )
     for i in range(6)
@@ -259,6 +261,14 @@ def gen_site(rng, boom_ok=False):
             lambda: f"{e}.jets.Where(lambda {j}: {j}.trk.value > {v()}).Count() + {e}.hit.args",
             lambda: f"{e}.hits[0].value + {v()} + {e}.hits[1].slice",
             lambda: f"[{j}.trk.attr + {e}.hit.ctx + {v()} for {j} in {e}.jets]",
+        ]
+        # a bound name spelled like a captured class / module, used with the very attribute the
+        # captured object has (`lambda K0: K0.A` - K0 the parameter, not the class)
+        forms += [
+            lambda: f"{e}.A * {v()} + {e}.m",
+            lambda: f"{e}.jets.Select(lambda {j}: {j}.A + {v()})",
+            lambda: f"{e}.jets.Where(lambda {j}: {j}.m > {v()}).Count() + {e}.In.B",
+            lambda: f"[{j}.A + {j}.In.B for {j} in {e}.jets if {j}.m < {v()}]",
         ]
         # comprehensions with several generators (lowered to nested Selects: the comparison
         # with Python's flat result is made on flattened values), and set / dict comprehensions
@@ -405,6 +415,10 @@ def generate(prop: str, seed: int, tier: str = "quick", fault_free: bool = False
     spawned = []
     qhist = {}
     for _ in range(n_ops):
+        if ops and "caller_edit" in faults and ops[-1]["op"] in ("md", "qmd", "term") \
+                and "edit_after" not in ops[-1]:
+            # the caller keeps the dict / list it passed and changes it afterwards
+            ops[-1]["edit_after"] = f.random() < 0.4
         k = _wchoice(w, weights)
         if k == "derive":
             ops.append({"op": "derive", "parent": w.randrange(64), "lam": w.randrange(64),
@@ -1215,7 +1229,11 @@ class Forest:
     def op_md(self, op):
         parent = self.ref(op, "parent")
         self.last_op = "metadata-empty" if not op["md"] else "metadata"
-        new, ex = self.builder(lambda: parent.stream.MetaData(dict(op["md"])))
+        given = dict(op["md"])
+        new, ex = self.builder(lambda: parent.stream.MetaData(given))
+        if op.get("edit_after"):
+            self.stat("fault_caller_edits_argument_afterwards")
+            given["edited"] = "by-caller-later"
         if ex is not None:
             self.stat("derive_raised")
             return
@@ -1233,10 +1251,17 @@ class Forest:
         if parent.made_by == "QMetaData":
             self.stat("probe_qmetadata_twice_in_a_row")
         self.derive_stack = op.get("stack")
+        given = dict(op["md"])  # the caller's own dict object
         try:
-            new, ex = self.builder(lambda: parent.stream.QMetaData(dict(op["md"])))
+            new, ex = self.builder(lambda: parent.stream.QMetaData(given))
         finally:
             self.derive_stack = None
+        if op.get("edit_after"):
+            # ... which the caller goes on using: a settings dict changed for the next variation
+            self.stat("fault_caller_edits_argument_afterwards")
+            for k in list(given):
+                given[k] = "edited-by-caller-later"
+            given["k2" if "k2" not in given else "k1"] = "added-by-caller-later"
         if ex is not None:
             self.stat("derive_raised")
             return
@@ -1282,9 +1307,9 @@ class Forest:
     def op_term(self, op):
         parent = self.ref(op, "parent")
         self.last_op = "terminal"
-        cols = op["cols"]
-
-        def mk(s):
+        def mk(s, cols=None):
+            if cols is None:
+                cols = list(op["cols"]) if isinstance(op["cols"], list) else op["cols"]
             if op.get("alias"):  # the lower-case aliases, arguments by keyword
                 if op["kind"] == "pandas":
                     return s.as_pandas(columns=cols)
@@ -1301,7 +1326,11 @@ class Forest:
                 return s.AsROOTTTree("f.root", "tree", cols)
             return s.AsParquetFiles("f.parquet", cols)
 
-        new, ex = self.builder(lambda: mk(parent.stream))
+        given = list(op["cols"]) if isinstance(op["cols"], list) else op["cols"]
+        new, ex = self.builder(lambda: mk(parent.stream, given))
+        if op.get("edit_after") and isinstance(given, list):
+            self.stat("fault_caller_edits_argument_afterwards")
+            given.append("added-by-caller-later")
         if ex is not None:
             self.stat("derive_raised")
             return
